@@ -317,7 +317,7 @@ impl GdsReader {
 //|             let b = old(self).source.rest(); let n = (de16(b[0], b[1]) - 4) as int;
 //|             (header_ok(b) && table_row(b[2], b[3], n) && b.len() >= 4 + n && (b[3] == 6 ==> valid_utf8(strip_nul(b.subrange(4, 4 + n))))) ==> r is Ok
 //|         }),
-//@   before /And read the content/
+//@   before1 /And read the content|self\.read_record_content\(&header\)/
 //|         proof {
 //|             let b = old(self).source.rest();
 //|             assert(self.source.rest() =~= b.subrange(4, b.len() as int));
